@@ -10,15 +10,41 @@ Definition has_entry (st : registry) (ph : phantom) (id : ident) (r : reginfo) :
 Definition same_object (r r0 : reginfo) : Prop :=
   r_name r = r_name r0 /\ r_transport r = r_transport r0 /\ r_params r = r_params r0.
 
-(* ghost, defined on the history alone: (phantom, identifier) has been validated and has not
-   expired since *)
+(* ghost, defined on the history alone, one key at a time: which object is stored under
+   (phantom, identifier) and whether it has been validated, since the last expiry of that key *)
+Definition kstate := option (N * bool).
+Definition key_is (ph : phantom) (id : ident) (ph' : phantom) (id' : ident) : bool :=
+  (ph' =? ph) && bytes_eqb id' id.
+Definition kstep (ph : phantom) (id : ident) (s : kstate) (op : rop) : kstate :=
+  match op with
+  | Track ph' id' r =>
+    if key_is ph id ph' id' then match s with None => Some (r_name r, false) | Some x => Some x end else s
+  | Validate ph' id' r =>
+    if key_is ph id ph' id'
+    then match s with
+         | None => Some (r_name r, true)
+         | Some (n, v) => if n =? r_name r then Some (n, true) else Some (n, v)
+         end
+    else s
+  | Expire ph' id' => if key_is ph id ph' id' then None else s
+  | Sweep => s
+  end.
+Definition key_state (ops : list rop) (ph : phantom) (id : ident) : kstate := fold_left (kstep ph id) ops None.
+
+(* (phantom, identifier) is validated and has not expired since *)
 Definition validated_live (ops : list rop) (ph : phantom) (id : ident) : Prop :=
+  exists n, key_state ops ph id = Some (n, true).
+
+(* a necessary condition in words: some Validate of that key, with no Expire of it afterwards *)
+Definition validated_since (ops : list rop) (ph : phantom) (id : ident) : Prop :=
   exists a r b, ops = a ++ Validate ph id r :: b /\ forall op, In op b -> op <> Expire ph id.
 
-(* what "a validated, unexpired registration of that phantom" means for a returned object *)
+(* what "a validated, unexpired registration of that phantom" means for a returned object r:
+   r is the object stored under the key, it is validated, and it is an object that was handed to
+   Track / Validate for exactly this phantom and identifier *)
 Definition registered (ops : list rop) (ph : phantom) (id : ident) (r : reginfo) : Prop :=
   r_valid r = true /\
-  validated_live ops ph id /\
+  key_state ops ph id = Some (r_name r, true) /\
   exists r0, (In (Track ph id r0) ops \/ In (Validate ph id r0) ops) /\ same_object r r0.
 
 Definition ids (v : view) : list ident := map fst v.
@@ -35,11 +61,3 @@ Definition canon (c : bytes) : bytes :=
 Definition mark_window (data : bytes) : bytes :=
   take o_mark_len (drop (N.min (blen data) o_max_hs - (o_mark_len + o_mac_len)) data).
 
-(* the same ghost as a function of the history alone (decidable form of validated_live) *)
-Definition vstep (ph : phantom) (id : ident) (acc : bool) (op : rop) : bool :=
-  match op with
-  | Validate ph' id' _ => if (ph' =? ph) && bytes_eqb id' id then true else acc
-  | Expire ph' id' => if (ph' =? ph) && bytes_eqb id' id then false else acc
-  | _ => acc
-  end.
-Definition vlive_b (ops : list rop) (ph : phantom) (id : ident) : bool := fold_left (vstep ph id) ops false.
